@@ -63,6 +63,8 @@ func exercise(c Case) *ev.Verdict {
 	case "regex":
 		if esc := sut.Trap("RSchema", func() {
 			r := regex.New("@r", c.Text)
+			// (asked twice: a failing first example must not leave the object unusable)
+			_, _ = r.Example()
 			sut.Describe(r.Check())
 			_, err := r.Len()
 			sut.Describe(err)
@@ -363,6 +365,35 @@ func nestText(open, close string, depth int, core string) string {
 	return strings.Repeat(open, depth) + core + strings.Repeat(close, depth)
 }
 
+// regex schemas whose pattern compiles but has no example the generator can draw: every entry point, also
+// registered as a type in two schemas one after the other
+func TestPropRegexWithoutExample(t *testing.T) {
+	registerAll()
+	ev.KeepFirst("regex-without-example")
+	var n, bad int64
+	for i, pat := range []string{`/[^\x00-\x7F]/`, `/[\x{10000}-\x{10FFFF}]+/`, `/[^\s\S]/`, `/\P{Any}/`, `/[^\x00-\x{10FFFF}]*a/`, `/a[^\d\D]?b/`, `/([^\w\W]|x)y/`, `/[^ -~\s]{2,3}/`} {
+		if !ev.Mine(i) {
+			continue
+		}
+		for _, c := range []Case{{Entry: "regex", Text: pat}, {Entry: "all", Text: pat},
+			{Entry: "project", Project: &sut.Project{Root: "{\n  \"a\": @r,\n  \"b\": \"x\" // {type: \"@r\"}\n}", Types: []sut.Named{{Name: "@r", Text: pat, Regex: true}}}}} {
+			c := c
+			ev.GuardFast("regex-without-example", c)
+			n++
+			ev.NonTrivial("regex-without-example", c.Entry+pat)
+			if v := oracle(c); v != nil && ev.Report("regex-without-example", c, v) {
+				bad++
+			}
+		}
+	}
+	ev.UnguardFast()
+	ev.Count("regex-without-example", n)
+	ev.Exhaustive("regex-without-example", "8 patterns with member-less or ASCII-less classes x 3 entry points")
+	if bad > 0 {
+		t.Errorf("VIOLATION-CANDIDATE regex-without-example: %d", bad)
+	}
+}
+
 func TestPropDeep(t *testing.T) {
 	registerAll()
 	ev.KeepFirst("deep")
@@ -408,6 +439,7 @@ func registerAll() {
 	ev.Register("strings", judgedStrings)
 	ev.Register("rich", judgedRich)
 	ev.Register("deep", oracle)
+	ev.Register("regex-without-example", oracle)
 	ev.Register("tokens", oracle)
 	ev.Register("corpus", oracle)
 	ev.Register("projects", judgedProject)
